@@ -1,7 +1,7 @@
 SPECIFICATION Spec
 CONSTANTS
   MaxLen = 6
-  ValSet = {0, 1, 2}
+  ValSet <- SignedSet
   Elem <- ElemDef
 INVARIANTS MirrorOK RankLoopOK PartitionOK EmitOrder
 CHECK_DEADLOCK FALSE
